@@ -33,6 +33,8 @@ def obligations(tier):
             for a in (1, nlv, nlv + 1):
                 obs.append(Ob(id=f'scorepredictor/n{n}m{m}nlv{nlv}/a{a}/pre{pre}', harness='C03/predict.c', tus=T, defs={'HP_WHICH': 1, 'HP_N': n, 'HP_NY': 1, 'HP_NLV': nlv, 'HP_M': m, 'HP_A': a, 'HP_PRE': pre},
                               engine='real', unwind=8, timeout=to, clause='re-projection t = Xw, X -= tp\'', stubs=R, real={'nomissing': True}))
+    obs.append(Ob(id='ypredictor_reused_output/n2ny2nlv2/a2', harness='C03/predict.c', tus=T, defs={'HP_WHICH': 0, 'HP_N': 2, 'HP_NY': 2, 'HP_NLV': 2, 'HP_M': 1, 'HP_A': 2, 'HP_PRE': 2, 'HP_PREFILL': 1}, engine='real', unwind=8, timeout=to, clause='y = sum b t q\' back-transformed', stubs=R, real={'nomissing': True}))
+    obs.append(Ob(id='scorepredictor_reused_output/n2m2nlv2/a2', harness='C03/predict.c', tus=T, defs={'HP_WHICH': 1, 'HP_N': 2, 'HP_NY': 1, 'HP_NLV': 2, 'HP_M': 2, 'HP_A': 2, 'HP_PRE': 2, 'HP_PREFILL': 1}, engine='real', unwind=8, timeout=to, clause='re-projection t = Xw, X -= tp\'', stubs=R, real={'nomissing': True}))
     for lem in (5, 6, 7, 8, 9):
         for (n, m) in ([(2, 2), (3, 2)] if not th else [(2, 2), (3, 2), (3, 3), (4, 3)]):
             obs.append(Ob(id=f'lemma{lem}/{n}x{m}', harness='C01/lemmas.c', tus=['memwrapper'], defs={'HP_LEMMA': lem, 'HP_N': n, 'HP_M': m}, engine='real', unwind=6, timeout=to,
